@@ -10,6 +10,12 @@ ASSUMPTIONS = ['lifecycle callbacks and processors are passive (they log, may ra
                'default id generator count(1); custom id generator factories are outside the model']
 
 
+def norm_ret(obs):
+    """a call that raised has no return value (the model prints the value it was about to return)"""
+    return ['ret -' if o.startswith('ret ') and i and obs[i - 1].startswith('res raised') else o
+            for i, o in enumerate(obs)]
+
+
 def make(pid, tags, clauses, gen_kwargs, quick=300, thorough=6000):
     def generate(rng, tier):
         # several parameter sets are used in turn (e.g. a family with raising callbacks)
@@ -18,10 +24,7 @@ def make(pid, tags, clauses, gen_kwargs, quick=300, thorough=6000):
             yield gen_world.gen_scenario(rng, **families[i % len(families)])
 
     def project(obs):
-        # a call that raised has no return value (the model prints the value it was about to return)
-        obs = ['ret -' if o.startswith('ret ') and i and obs[i - 1].startswith('res raised') else o
-               for i, o in enumerate(obs)]
-        return [o for o in obs if o.split()[0] in tags]
+        return [o for o in norm_ret(obs) if o.split()[0] in tags]
 
     def oracle(lines, obs):
         vs = spec_world.check(lines, obs)
